@@ -89,6 +89,7 @@ const (
 	issByP2            // ... shape 2
 	issByP3            // ... shape 3 (empty name)
 	issByStruct        // issued; parent handed over as an unparsed template struct (Subject, no RawSubject)
+	issByCustom        // issued by a parsed CA certificate minted by the name probe (names.go); not an alternative of the field table
 )
 
 type scenario struct {
@@ -100,6 +101,10 @@ type scenario struct {
 	// that a history can rename it between calls and so that nothing the creation call might write into
 	// it is shared between goroutines
 	parentStruct *x509.Certificate
+	// name probe (names.go): a parsed CA certificate with the signer kind's key, minted by the probe for one
+	// distinguished name (the parent argument when issuer == issByCustom, the verifier when issuer == issByStruct)
+	customParent *x509.Certificate
+	customName   pkix.Name
 }
 
 func (s *scenario) self() bool { return s.issuer == issSelf }
@@ -546,9 +551,10 @@ func makeParents() error {
 // ------------------------------------------------------------------ driver
 
 type witness struct {
-	Probe  string            `json:"probe,omitempty"` // "" = template enumeration, "eku" = ExtKeyUsage constant probe, "reuse" = reuse history
-	Assign [][2]int          `json:"assign,omitempty"` // reuse: the base template of the history
-	Edits  []int             `json:"edits,omitempty"`  // reuse: indices into the edit alphabet, applied in place between the calls
+	Probe  string            `json:"probe,omitempty"`     // "" = template enumeration, "eku" = ExtKeyUsage constant probe, "reuse" = reuse history, "name" = name value probe
+	Name   *nameCase         `json:"name_case,omitempty"` // probe "name"
+	Assign [][2]int          `json:"assign,omitempty"`    // reuse: the base template of the history
+	Edits  []int             `json:"edits,omitempty"`     // reuse: indices into the edit alphabet, applied in place between the calls
 	EditL  []string          `json:"edit_labels,omitempty"`
 	EKU    *int              `json:"eku,omitempty"` // probe "eku": the ExtKeyUsage constant's integer value
 	Fields map[string]string `json:"non_default_fields,omitempty"`
@@ -577,6 +583,9 @@ func main() {
 		loadStdPubs()
 		fields = buildFields()
 		buildReuseEdits()
+		if err := buildNameValues(); err != nil {
+			c.Broken("name value alphabet: %v", err)
+		}
 		if err := makeParents(); err != nil {
 			// cannot even mint the CA fixtures: that is a failure of issuance itself
 			c.Violation("fixture CA certificate cannot be issued/parsed", witness{Detail: err.Error()})
@@ -617,6 +626,15 @@ func main() {
 					c.Violation(v.sig, witness{Probe: "reuse", Assign: w.Assign, Fields: describe(w.Assign), Edits: w.Edits, EditL: h.labels(), Detail: v.detail})
 				}
 				r.viol = nil
+			} else if w.Probe == "name" {
+				if w.Name == nil || !w.Name.valid() {
+					c.Broken("witness does not fit the name probe tables")
+				}
+				r = evalName(*w.Name)
+				for _, v := range r.viol {
+					c.Violation(v.sig, witness{Probe: "name", Name: w.Name.labelled(), Detail: v.detail})
+				}
+				r.viol = nil
 			} else if w.Probe == "eku" {
 				if w.EKU != nil {
 					eku = *w.EKU
@@ -648,12 +666,14 @@ func main() {
 			nAlt += len(f.alts) - 1
 			perField[f.name] = len(f.alts) - 1
 		}
-		c.Rule(fmt.Sprintf("every certificate template with at most %d of %d fields set to a non-default alternative (%d alternatives in total, full list in coverage.alternatives_per_field) is created by the real CreateCertificate and parsed back; PLUS, independent of that bound, the full product signer key kind {Ed25519, RSA-1024, RSA-2048, RSA-3072, P-224, P-256, P-384, P-521} x requested SignatureAlgorithm {0, every constant MD2WithRSA..Ed25519Sig} x {issued by the parsed CA to each of the 8 subject key kinds | self-signed CA certificate} on the default template (every RSA-PSS variant must really be issued by the RSA-2048 and RSA-3072 signers, issued and self-signed); a case is distinct/non-trivial when the template is inside the documented domain and the certificate was created and parsed by zcrypto; plus every exported ExtKeyUsage constant as the only EKU of the default template; PLUS reuse histories: every base template with at most 1 non-default field x every edit of the alphabet {field := alternative (every field, every alternative incl. back to the default), no edit, 7 edits inside existing values (Subject.CommonName, Subject.Organization append, SerialNumber.SetInt64, DNSNames append, ExtraExtensions append, IsCA toggle, SubjectKeyId bytes), 4 edits of an unparsed parent template (rename x3, SubjectKeyId)} applied IN PLACE to the same template/parent objects between two CreateCertificate calls (thorough: also three calls, first edit from the covering sub-alphabet): the last certificate is judged by the same expectation function applied to freshly built objects holding the edited values, and its TBSCertificate must equal the one issued from such fresh objects; every creation call is bracketed by a deep snapshot of template and parent (changed input paths are outcome classes 'probe: ...')", d, len(fields), nAlt))
+		c.Rule(fmt.Sprintf("every certificate template with at most %d of %d fields set to a non-default alternative (%d alternatives in total, full list in coverage.alternatives_per_field) is created by the real CreateCertificate and parsed back; PLUS, independent of that bound, the full product signer key kind {Ed25519, RSA-1024, RSA-2048, RSA-3072, P-224, P-256, P-384, P-521} x requested SignatureAlgorithm {0, every constant MD2WithRSA..Ed25519Sig} x {issued by the parsed CA to each of the 8 subject key kinds | self-signed CA certificate} on the default template (every RSA-PSS variant must really be issued by the RSA-2048 and RSA-3072 signers, issued and self-signed); a case is distinct/non-trivial when the template is inside the documented domain and the certificate was created and parsed by zcrypto; plus every exported ExtKeyUsage constant as the only EKU of the default template; PLUS the name value probe (names.go, tables in coverage.name_probe): every value of a rule-built alphabet {per UTF-8 length class 2/3/4 a rune whose low byte (rune&0xff) is a PrintableString character and one whose low byte is not, U+0080, U+00FF, U+0100, U+0120, each alone and between ASCII letters; every PrintableString punctuation character ' ( ) + , - . / : = ? space alone and all in one value; the ASCII characters * & @ _ alone and between letters; three real-world names whose non-ASCII runes all have a printable low byte} x every string-typed pkix.Name field that ToRDNSequence emits (15) and ExtraNames {unknown OID, givenName, surname} x position {subject of an issued certificate, subject+issuer of a self-signed CA, issuer through a parsed parent of that name, issuer through an unparsed parent template, permitted directory-name constraint, excluded directory-name constraint}: created, parsed by zcrypto AND by Go crypto/x509, names compared in both, signature verified; the ASN.1 string type on the wire is recorded per value class; PLUS reuse histories: every base template with at most 1 non-default field x every edit of the alphabet {field := alternative (every field, every alternative incl. back to the default), no edit, 7 edits inside existing values (Subject.CommonName, Subject.Organization append, SerialNumber.SetInt64, DNSNames append, ExtraExtensions append, IsCA toggle, SubjectKeyId bytes), 4 edits of an unparsed parent template (rename x3, SubjectKeyId)} applied IN PLACE to the same template/parent objects between two CreateCertificate calls (thorough: also three calls, first edit from the covering sub-alphabet): the last certificate is judged by the same expectation function applied to freshly built objects holding the edited values, and its TBSCertificate must equal the one issued from such fresh objects; every creation call is bracketed by a deep snapshot of template and parent (changed input paths are outcome classes 'probe: ...')", d, len(fields), nAlt))
 		c.Assume("expectation function transcribes the documentation of CreateCertificate, Certificate, pkix.Name and RFC 5280 (oracle.go), not buildExtensions",
 			"Go standard library crypto/x509, encoding/asn1, crypto/rsa, crypto/ecdsa, crypto/ed25519 are correct (used as independent parser and verifier)",
 			"fixture keys of internal/fx; CA fixtures are minted with the code under test and verified like every other certificate",
 			"AuthorityKeyId: the property statement says the template's, the doc comment of CreateCertificate says the parent's SubjectKeyId when issued: both are accepted and counted (outcomes akid=...)",
 			"ordering inside list-valued fields and inside a multi-valued RDN is not part of the statement: lists are compared as multisets",
+			"a certificate issued from a template inside the documented domain that Go's crypto/x509 refuses to parse is a violation (0 such cases on the unchanged tree): the independent parser is the witness that the certificate is well-formed for parsers other than the one that shares its ASN.1 tables with the issuer",
+			"pkix.Name fields GivenName, Surname, CommonNames, SerialNumbers are filled by parsing only (ToRDNSequence does not emit them): givenName and surname are probed through ExtraNames",
 			"reuse histories: 'reports the template's fields' is read as the template's fields AT THE TIME OF THE CALL; a creation call that changes its inputs is not a violation by itself (outcome class), only its effect on a later call is",
 			"templates may hold slices that share a backing array (two IP ranges sliced from one packed address table): nothing in the documentation asks for exact-capacity slices")
 		c.Set("deviation_bound_d", d)
@@ -874,6 +894,9 @@ func main() {
 			report(nil, r, "eku", v)
 		}
 		c.Set("eku_constants_failing", ekuFailing)
+
+		// name value probe (names.go): every string-typed attribute field x value alphabet x position
+		runNameProbe(c)
 
 		// reuse histories (reuse.go): the same template/parent objects through several creation calls
 		bases := enumerate(1)
